@@ -221,7 +221,7 @@ class Rank:
                 #
                 # We do not actually know the shape, but we can estimate it
                 #
-                return max([f.estimateShape(all_ranks=False) for f in self.fibers])
+                return Fiber._maxComponents([f.estimateShape(all_ranks=False) for f in self.fibers])
 
             return self._attrs.getShape()
 
@@ -239,7 +239,7 @@ class Rank:
         elif len(self.fibers) == 0:
             shape = [0]
         else:
-            shape = [max([f.estimateShape(all_ranks=False) for f in self.fibers])]
+            shape = [Fiber._maxComponents([f.estimateShape(all_ranks=False) for f in self.fibers])]
 
         if self.next_rank is not None:
             rest_of_shape = self.next_rank.getShape(all_ranks=True, authoritative=authoritative)
@@ -457,7 +457,7 @@ class Rank:
             if old is None and new != 0:
                 self._attrs.setShape(new)
             elif new != 0:
-                self._attrs.setShape(max(old, new))
+                self._attrs.setShape(Fiber._maxComponents([old, new]))
 
         #
         # Set this rank as owner of the fiber
